@@ -48,7 +48,7 @@ def chunks(tier, seed):
 
 
 def floors(tier):
-    return {"monitors": {"readUnixTime.wellformed": 100000, "inplace_fields.then_convert": 3000,
+    return {"monitors": {"readUnixTime.wellformed": 100000, "readUnixTime.other_numeric_types": 100000, "inplace_fields.then_convert": 3000,
                          "fractional.wellformed_same_instant": 3000},
             "classes": {"jan1_after_common_year": 90, "dec31_leap_year": 30, "leap_day": 30,
                         "cmp_pair": 1000, "add_cross_year": 50, "add_cross_leapday": 20},
@@ -156,7 +156,7 @@ def cases(chunk):
 
 
 # --------------------------------------------------------------------------
-def _check_instant(ms_total, ctx):
+def _check_instant(ms_total, ctx, other_types=True):
     """toAbsTime vs stdlib, readUnixTime round trip.  Returns None or witness."""
     from tracklib.core.obs_time import ObsTime
     f = gen.fields_from_ms(ms_total)
@@ -184,6 +184,29 @@ def _check_instant(ms_total, ctx):
                 "got_fields": rf}
     if f[6] == 0 and not (r == t):
         return {"what": "round-tripped whole-second timestamp does not compare equal", "input_fields": f}
+    # the same number of seconds in the other numeric types a caller may hold it in (a Python int for whole seconds,
+    # numpy scalars out of an array of epoch seconds) denotes the same instant; so do fields held as numpy integers
+    if not other_types:
+        return None
+    import numpy as np
+    alts = [("numpy.float64", np.float64(s))]
+    if f[6] == 0:
+        whole = ms_total // 1000
+        alts += [("int", int(whole)), ("numpy.int64", np.int64(whole))]
+    for tname, v in alts:
+        r2 = M.call(ObsTime.readUnixTime, v)
+        ctx.monitor("readUnixTime.other_numeric_types")
+        if M.is_raised(r2):
+            return {"what": "readUnixTime raised for the seconds given as " + tname, "seconds": s, "raised": r2}
+        rf2 = gen.obstime_fields(r2)
+        if tuple(int(x) for x in rf2[:6]) != tuple(int(x) for x in rf[:6]) or abs(rf2[6] - rf[6]) > 1:
+            return {"what": "readUnixTime decodes the same number of seconds differently when it is given as " + tname,
+                    "seconds": s, "as_float": rf, "as_" + tname: rf2}
+    t3 = ObsTime(*([np.int64(x) for x in f[:6]] + [f[6]]))
+    s3 = M.call(t3.toAbsTime)
+    if M.is_raised(s3) or abs(float(s3) * 1000.0 - ms_total) > 1e-3:
+        return {"what": "toAbsTime of fields held as numpy integers disagrees with the calendar", "fields": f,
+                "got_s": s3, "expected_s": ms_total / 1000.0}
     return None
 
 
@@ -248,7 +271,7 @@ def run_case(case, ctx):
         cls = _day_classes(y, m, d) + ["every_second_day"]
         secs = case["secs"] if case["secs"] is not None else range(86400)
         for s in secs:
-            w = _check_instant(base + s * 1000, ctx)
+            w = _check_instant(base + s * 1000, ctx, other_types=(s % 7 == 0 or s > 86390))
             if w:
                 return violated(w, ("sec", y, m, d), True, cls)
         for s in list(secs)[::501]:
